@@ -5929,7 +5929,10 @@ def _vindex_array(x, dict_indexes):
         mul, map(cached_max, _subset_to_indexed_axes(x.chunks))
     )
 
-    n_chunks, remainder = divmod(npoints, max_chunk_point_dimensions)
+    # (no points: the indexed axes may have length zero, nothing to divide)
+    n_chunks, remainder = (
+        divmod(npoints, max_chunk_point_dimensions) if npoints > 0 else (0, 0)
+    )
     chunks.insert(
         0,
         (
